@@ -15,6 +15,7 @@ import (
 	"time"
 
 	"github.com/folbricht/desync"
+	"golang.org/x/sys/unix"
 )
 
 // job is what the parent hands to a child (read before the chroot).
@@ -40,6 +41,7 @@ type callRec struct {
 type childResult struct {
 	Ready    bool
 	Done     bool
+	Final    []change // changes after the last entry (work the unpacker defers to the end, e.g. directory mtimes)
 	Calls    []callRec
 	Err      string // error returned by UnTar / UnTarIndex ("" = nil)
 	ExitCode int
@@ -57,10 +59,13 @@ const (
 // recFS passes every call through to the real LocalFS and records, per call, what changed
 // outside the destination (so that the parent can attribute a difference to the entry that
 // caused it). It changes nothing about what the unpacker does.
+//
+// *desync.LocalFS is embedded (not just held) so that methods UnTar looks for through
+// unexported interfaces (finish: deferred directory mtimes) are promoted and still run.
 type recFS struct {
-	inner desync.FilesystemWriter
-	prev  snap
-	n     int
+	*desync.LocalFS
+	prev snap
+	n    int
 }
 
 func crossOf(kind, name string) string {
@@ -110,16 +115,16 @@ func (r *recFS) do(kind, name string, f func() error) error {
 }
 
 func (r *recFS) CreateDir(n desync.NodeDirectory) error {
-	return r.do("dir", n.Name, func() error { return r.inner.CreateDir(n) })
+	return r.do("dir", n.Name, func() error { return r.LocalFS.CreateDir(n) })
 }
 func (r *recFS) CreateFile(n desync.NodeFile) error {
-	return r.do("file", n.Name, func() error { return r.inner.CreateFile(n) })
+	return r.do("file", n.Name, func() error { return r.LocalFS.CreateFile(n) })
 }
 func (r *recFS) CreateSymlink(n desync.NodeSymlink) error {
-	return r.do("sym", n.Name, func() error { return r.inner.CreateSymlink(n) })
+	return r.do("sym", n.Name, func() error { return r.LocalFS.CreateSymlink(n) })
 }
 func (r *recFS) CreateDevice(n desync.NodeDevice) error {
-	return r.do("dev", n.Name, func() error { return r.inner.CreateDevice(n) })
+	return r.do("dev", n.Name, func() error { return r.LocalFS.CreateDevice(n) })
 }
 
 func emit(prefix string, v any) {
@@ -162,14 +167,16 @@ func childMain() {
 	os.Stdout.WriteString(lineReady + "\n")
 
 	var runErr error
+	var fsrec *recFS
 	switch j.Mode {
 	case "tamper":
 		runErr = tamper()
 	case "catar", "index":
 		fs := &recFS{
-			inner: desync.NewLocalFS(destAbs, desync.LocalFSOptions{NoSameOwner: j.NoSameOwner, NoSamePermissions: j.NoSamePerm}),
-			prev:  takeSnap("/"),
+			LocalFS: desync.NewLocalFS(destAbs, desync.LocalFSOptions{NoSameOwner: j.NoSameOwner, NoSamePermissions: j.NoSamePerm}),
+			prev:    takeSnap("/"),
 		}
+		fsrec = fs
 		ctx := context.Background()
 		if j.Mode == "catar" {
 			f, err := os.Open("/job/a.catar")
@@ -205,6 +212,11 @@ func childMain() {
 	if runErr != nil {
 		res["err"] = runErr.Error()
 	}
+	if fsrec != nil {
+		if final := diffSnaps(fsrec.prev, takeSnap("/")); len(final) > 0 {
+			res["final"] = final
+		}
+	}
 	emit(lineDone, res)
 	os.Exit(0)
 }
@@ -221,6 +233,10 @@ func tamper() error {
 		os.Chtimes("/sb/l1/l2/outside", time.Unix(5, 0), time.Unix(5, 0)),                                   // metadata: directory mtime
 		func() error { os.Remove("/sb/l1/l2/l3/vlink"); return os.Symlink("/abs", "/sb/l1/l2/l3/vlink") }(), // link target
 		func() error { os.Remove("/sb/l1/vlink"); return os.Mkdir("/sb/l1/vlink", 0o755) }(),                // replaced
+		unix.Lsetxattr("/sb/outside/f", "user.c18", []byte("v"), 0),                                         // xattr added (file)
+		unix.Lsetxattr("/sb/l1/outside/sub", "trusted.c18", []byte("v"), 0),                                 // xattr added (directory)
+		unix.Lsetxattr("/sb/l1/l2/xvictim", "user.sentinel", []byte("other"), 0),                            // xattr value changed
+		unix.Lsetxattr("/sb/vlink", "trusted.c18", []byte("v"), 0),                                          // xattr on a symlink itself
 		os.WriteFile(path.Join(destAbs, "inside"), []byte("fine"), 0o644),                                   // inside dest: not a difference
 		func() error { _, err := os.ReadDir("/sb/l1/l2/l3/sib"); return err }(),                             // reading a directory: not a difference
 		os.WriteFile("/../../../escape-attempt", []byte("x"), 0o644),                                        // stays inside the chroot: created at its root
@@ -267,11 +283,13 @@ func runChild(jobPath string) childResult {
 			}
 		case strings.HasPrefix(line, lineDone):
 			var d struct {
-				OK  bool   `json:"ok"`
-				Err string `json:"err"`
+				OK    bool     `json:"ok"`
+				Err   string   `json:"err"`
+				Final []change `json:"final"`
 			}
 			if json.Unmarshal([]byte(line[len(lineDone):]), &d) == nil {
 				res.Done = true
+				res.Final = d.Final
 				res.Err = d.Err
 				if !d.OK && res.Err == "" {
 					res.Err = "error"
